@@ -356,6 +356,55 @@ Open Scope string_scope.
 """
 
 
+def transpile_clause(ctx, n, stats):
+    """`transpile . instantiate = instantiate . transpile` on the real code, and the tie of the model's
+    representation of templates: generated vanilla subroutines (C08's generator) whose rotation numerators /
+    denominators are partly Templates.  Oracle: real transpile-then-instantiate == real
+    instantiate-then-transpile (instruction lists).  Tie: the model's transpile of the program with templates
+    coded as negative integers == the real transpiler's output on the templated subroutine, same coding."""
+    import nv_gen
+    import nv_impl
+
+    impl = nv_impl.NvImpl(ctx.repo)
+    rng = ctx.rng
+    tcases, meta = [], []
+    for k in range(8 * n):
+        if stats.get("transpile_clause", 0) >= n:
+            break
+        prog, m = nv_gen.gen_program(rng, dict(perm=rng.random() < 0.3, nonq=rng.random() < 0.3), size=rng.randint(2, 5))
+        names, vals, codes, out = [], {}, {}, []
+        for t in prog:
+            if t[0] == "rot" and rng.random() < 0.6:
+                nm = f"t{len(names)}"
+                names.append(nm)
+                codes[nm] = -len(names)
+                if rng.random() < 0.8:
+                    vals[nm] = rng.randint(0, 31)
+                    t = ("rot", t[1], t[2], nm, t[4])
+                else:
+                    vals[nm] = rng.randint(0, 4)
+                    t = ("rot", t[1], t[2], t[3], nm)
+            out.append(t)
+        prog = out
+        if not names:
+            continue
+        a = impl.transpile_then_instantiate(prog, vals)
+        b = impl.instantiate_then_transpile(prog, vals)
+        stats["transpile_clause"] = stats.get("transpile_clause", 0) + 1
+        ctx.note_case(("transpile-clause", str(prog), json.dumps(vals)))
+        if a[:2] != b[:2]:
+            ctx.violation("transpile(instantiate(P, v)) != instantiate(transpile(P), v) on the real NV transpiler",
+                          dict(ops=[["program", [list(t) for t in prog]]], values=vals, what="transpile/instantiate do not commute",
+                               subroutine_text=impl.text([t for t in nv_impl.code_templates(prog, {k_: 0 for k_ in names})]),
+                               transpile_then_instantiate=str(a[:2])[:600], instantiate_then_transpile=str(b[:2])[:600]), key=None)
+        if a[0] == "ok":
+            coded_in = nv_impl.code_templates(prog, codes)
+            coded_out = nv_impl.code_templates(a[2], codes)
+            tcases.append((False, False, coded_in, nv_impl.enc_tresult(("ok", coded_out))))
+            meta.append(prog)
+    return impl, tcases, meta
+
+
 def run(ctx):
     quick = ctx.tier == "quick"
     ctx.rule = ("generated scenarios on the real connection (in-process controller): qubit creation, H/X/Z, rot_X/Y/Z with "
@@ -372,6 +421,8 @@ def run(ctx):
         ok = r.ok
     if ok:
         okb, errb = ctx.gen("nv_blocks.py", "Gen_NvBlocks.v")
+        ctx.trusted.append("harness/nv_impl.py / nv_gen.py (C08's generator and tuple<->instruction conversion) for the "
+                           "transpile/instantiate clause; Templates are coded as negative integers on the model side")
         ctx.gen_obligation("translator nv_blocks.py (NV decomposition table, for the transpile/instantiate clause)", okb, errb.strip()[-300:])
         if okb:
             rb = ctx.coqc("Gen_NvBlocks.v")
@@ -428,6 +479,26 @@ def run(ctx):
                 meta.append(dict(ops=ops, values=values, views=pre["views"], left=pre["left"]))
         if k < 3:
             ctx.samples.append(dict(ops=ops, values=values))
+    impl_t, tcases, tmeta = transpile_clause(ctx, 40 if quick else 400, stats)
+    if ok and tcases:
+        import nv_impl
+
+        tfiles = {}
+        for k in range((len(tcases) + 39) // 40):
+            fn = f"tcases_{k}.v"
+            nv_impl.write_case_file(os.path.join(ctx.build, fn), tcases[k * 40:(k + 1) * 40], [])
+            tfiles[fn] = k
+        tm = []
+        for fn, res in ctx.run_case_files(list(tfiles)).items():
+            if not res.ok:
+                ctx.gen_obligation(f"correspondence file {fn} evaluates", False, res.err[-300:])
+                continue
+            parts = re.findall(r"=\s*(\[[^\]]*\]|nil)\s*:\s*list Z", res.out.replace("\n", " "))
+            tm += [tfiles[fn] * 40 + int(x) for x in re.findall(r"-?\d+", parts[0])] if parts else []
+        ctx.coverage["templated_transpile_model_mismatches"] = len(tm)
+        if tm:
+            ctx.broken.append(f"correspondence Transpile.transpile (templates as negative codes) vs real transpiler on templated "
+                              f"subroutines: {len(tm)} differing; first: {str(tmeta[tm[0]])[:300]}")
     mism = []
     if ok:
         shard, files = 100, {}
@@ -474,6 +545,17 @@ def search(ctx):
 def replay(ctx, path):
     rec = json.load(open(path))
     rec = rec.get("replay", rec)
+    if rec["ops"] and rec["ops"][0][0] == "program":      # a transpile/instantiate clause case
+        import nv_impl
+
+        impl = nv_impl.NvImpl(ctx.repo)
+        prog = [tuple(tuple(x) if isinstance(x, list) else x for x in t) for t in rec["ops"][0][1]]
+        a = impl.transpile_then_instantiate(prog, rec["values"])
+        b = impl.instantiate_then_transpile(prog, rec["values"])
+        print("replay: transpile-then-instantiate", a[:2] == b[:2] and "==" or "!=", "instantiate-then-transpile")
+        if a[:2] != b[:2]:
+            ctx.violation("transpile(instantiate(P, v)) != instantiate(transpile(P), v) on the real NV transpiler", rec, key=None)
+        return ctx.finish()
     okj, pre, dire = judge(ctx, rec["ops"], rec["values"], rec.get("hardware", "generic"), rec.get("script", [1, 0, 1, 1]))
     print("replay: equal =", okj)
     print("precompiled:", json.dumps({k: pre[k] for k in ("error", "views", "shared_arrays", "host_values", "left")}))
